@@ -1,6 +1,7 @@
 import StepModel.GenPy
 import StepModel.GenPyPass
 import StepModel.GenPyOrder
+import StepModel.GenPyEntityOrder
 /-!
 # C18 — exp2python emits a module that mirrors the schema
 
@@ -219,7 +220,7 @@ theorem C18_ctor_params_shape (es : List Entity) (e : Entity) :
   simp [ctorParams, ctorAttrNames, ownParams, hn]
 
 def diamond : List Entity :=
-  [⟨"root", [], [⟨"root", "x", .explicit⟩]⟩, ⟨"l", ["root"], []⟩, ⟨"r", ["root"], []⟩, ⟨"d", ["l", "r"], []⟩]
+  [⟨"root", [], [{ owner := "root", name := "x", kind := .explicit }]⟩, ⟨"l", ["root"], []⟩, ⟨"r", ["root"], []⟩, ⟨"d", ["l", "r"], []⟩]
 
 /-- A diamond: `d` takes `root.x` once. -/
 example : ctorParams diamond ⟨"d", ["l", "r"], []⟩ = ["inherited0__x"] := by decide
@@ -250,11 +251,6 @@ example : bases shallowDeep ⟨"c", ["q", "p"], []⟩ = ["q", "p"] :=
   C18_bases_decl_order_partial _ _ (by decide)
 
 /-! ## ENTITYhas_ancestor decides the supertype relation -/
-
-/-- `anc` is a direct or indirect supertype of `n` -/
-inductive Anc (es : List Entity) : String → String → Prop
-  | direct {anc n : String} {e : Entity} : find es n = some e → anc ∈ e.supers → Anc es anc n
-  | step {anc p n : String} {e : Entity} : find es n = some e → p ∈ e.supers → Anc es anc p → Anc es anc n
 
 theorem isAncestor_sound (es : List Entity) : ∀ (f : Nat) (anc n : String), isAncestor es f anc n = true → Anc es anc n
   | 0, _, _, h => by simp [isAncestor] at h
@@ -484,5 +480,211 @@ theorem C18_aggregate_scope_at_innermost_level (a : AggT) (h : 1 ≤ a.depth) : 
       simp only [AggT.scopedLevels, AggT.depth] at this ⊢
       rw [this]
       simp
+
+/-! ## emission order of the entity classes -/
+
+namespace EntityOrder
+
+theorem anc_trans {es : List Entity} {a b c : String} (h1 : Anc es a b) (h2 : Anc es b c) : Anc es a c := by
+  induction h2 with
+  | direct hf hm => exact Anc.step hf hm h1
+  | step hf hm _ ih => exact Anc.step hf hm ih
+
+/-- the supertypes of `n` that are defined in the scope -/
+def inScopeSupers (es : List Entity) (n : String) : List String :=
+  match find es n with
+  | none => []
+  | some e => e.supers.filter (fun p => (find es p).isSome)
+
+/-- every entity stands after all its in-scope supertypes -/
+def Sorted (es : List Entity) (out : List String) : Prop :=
+  ∀ (i : Nat) (n : String), out[i]? = some n → ∀ p ∈ inScopeSupers es n, ∃ j : Nat, j < i ∧ out[j]? = some p
+
+theorem sorted_snoc (es : List Entity) (out : List String) (n : String) (h : Sorted es out)
+    (hs : ∀ p ∈ inScopeSupers es n, p ∈ out) : Sorted es (out ++ [n]) := by
+  unfold Sorted at h ⊢
+  intro i m hi p hp
+  by_cases hlt : i < out.length
+  · rw [List.getElem?_append_left hlt] at hi
+    obtain ⟨j, hj, hjp⟩ := h i m hi p hp
+    exact ⟨j, hj, by rw [List.getElem?_append_left (by omega)]; exact hjp⟩
+  · have hge : out.length ≤ i := by omega
+    rw [List.getElem?_append_right hge] at hi
+    have hi0 : i - out.length = 0 := by
+      cases hk : i - out.length with
+      | zero => rfl
+      | succ k => rw [hk] at hi; simp at hi
+    rw [hi0] at hi
+    simp at hi
+    subst hi
+    obtain ⟨j, hjl, hj⟩ := List.getElem_of_mem (hs p hp)
+    exact ⟨j, by omega, by rw [List.getElem?_append_left hjl, List.getElem?_eq_getElem hjl, hj]⟩
+
+def Acyclic (es : List Entity) : Prop := ∀ x, ¬ Anc es x x
+
+/-- what one `SCOPE_dfs` call guarantees -/
+def Post (es : List Entity) (out out' : List String) : Prop :=
+  Sorted es out' ∧ (∀ x ∈ out, x ∈ out')
+
+theorem dfs_spec (es : List Entity) (hac : Acyclic es) :
+    ∀ (f : Nat) (stack out : List String) (n : String) (out' : List String),
+      Sorted es out → (∀ s ∈ stack, Anc es n s) → dfs es f stack out n = some out' →
+      Post es out out' ∧ ((find es n).isSome → n ∈ out') := by
+  intro f
+  induction f with
+  | zero => intro stack out n out' _ _ h; simp [dfs] at h
+  | succ f ih =>
+    intro stack out n out' hs hst h
+    simp only [dfs] at h
+    by_cases hm : n ∈ out ∨ n ∈ stack
+    · rw [if_pos hm] at h
+      cases h
+      refine ⟨⟨hs, fun x hx => hx⟩, fun _ => ?_⟩
+      rcases hm with ho | hk
+      · exact ho
+      · exact absurd (hst n hk) (hac n)
+    · rw [if_neg hm] at h
+      cases hf : find es n with
+      | none =>
+        rw [hf] at h; cases h
+        exact ⟨⟨hs, fun x hx => hx⟩, fun hh => by simp at hh⟩
+      | some e =>
+        rw [hf] at h
+        simp only [Option.map_eq_some_iff] at h
+        obtain ⟨o, hfold, rfl⟩ := h
+        -- the loop over the supertypes
+        have loop : ∀ (ps : List String) (o0 o1 : List String), (∀ p ∈ ps, p ∈ e.supers) → Sorted es o0 →
+            ps.foldlM (fun o p => dfs es f (n :: stack) o p) o0 = some o1 →
+            Sorted es o1 ∧ (∀ x ∈ o0, x ∈ o1) ∧ (∀ p ∈ ps, (find es p).isSome → p ∈ o1) := by
+          intro ps
+          induction ps with
+          | nil => intro o0 o1 _ hs0 hh; simp at hh; subst hh; exact ⟨hs0, fun x hx => hx, fun p hp => by cases hp⟩
+          | cons p ps ihp =>
+            intro o0 o1 hsub hs0 hh
+            simp only [List.foldlM_cons, Option.bind_eq_bind, Option.bind_eq_some_iff] at hh
+            obtain ⟨om, hcall, hrest⟩ := hh
+            have hpn : Anc es p n := Anc.direct hf (hsub p List.mem_cons_self)
+            have hst' : ∀ s ∈ n :: stack, Anc es p s := by
+              intro s hs'
+              rcases List.mem_cons.mp hs' with rfl | hs'
+              · exact hpn
+              · exact anc_trans hpn (hst s hs')
+            obtain ⟨⟨hsm, hmono⟩, hin⟩ := ih (n :: stack) o0 p om hs0 hst' hcall
+            obtain ⟨hs1, hmono1, hall⟩ := ihp om o1 (fun q hq => hsub q (List.mem_cons_of_mem _ hq)) hsm hrest
+            refine ⟨hs1, fun x hx => hmono1 x (hmono x hx), ?_⟩
+            intro q hq hqs
+            rcases List.mem_cons.mp hq with rfl | hq
+            · exact hmono1 _ (hin hqs)
+            · exact hall q hq hqs
+        obtain ⟨hso, hmono, hall⟩ := loop e.supers out o (fun p hp => hp) hs hfold
+        refine ⟨⟨?_, fun x hx => List.mem_append_left _ (hmono x hx)⟩, fun _ => by simp⟩
+        apply sorted_snoc es o n hso
+        intro p hp
+        simp only [inScopeSupers, hf, List.mem_filter] at hp
+        exact hall p hp.1 hp.2
+
+end EntityOrder
+
+/-- Emission order of the entity classes: for every acyclic schema and every symbol-table (hash) order of the roots,
+whenever the recursion completes, each entity class is written after the classes of all its supertypes defined in the
+schema — so every `class e(s1, s2, …)` statement finds its base classes — and every entity of the schema that is a
+root is written. -/
+theorem C18_entities_written_after_their_supertypes (es : List Entity) (hac : EntityOrder.Acyclic es)
+    (fuel : Nat) (roots out : List String) (h : EntityOrder.order es fuel roots = some out) :
+    EntityOrder.Sorted es out ∧ ∀ r ∈ roots, (find es r).isSome → r ∈ out := by
+  unfold EntityOrder.order at h
+  have loop : ∀ (rs : List String) (o0 o1 : List String), EntityOrder.Sorted es o0 →
+      rs.foldlM (fun o r => EntityOrder.dfs es fuel [] o r) o0 = some o1 →
+      EntityOrder.Sorted es o1 ∧ (∀ x ∈ o0, x ∈ o1) ∧ (∀ r ∈ rs, (find es r).isSome → r ∈ o1) := by
+    intro rs
+    induction rs with
+    | nil => intro o0 o1 hs0 hh; simp at hh; subst hh; exact ⟨hs0, fun x hx => hx, fun r hr => by cases hr⟩
+    | cons r rs ihr =>
+      intro o0 o1 hs0 hh
+      simp only [List.foldlM_cons, Option.bind_eq_bind, Option.bind_eq_some_iff] at hh
+      obtain ⟨om, hcall, hrest⟩ := hh
+      obtain ⟨⟨hsm, hmono⟩, hin⟩ := EntityOrder.dfs_spec es hac fuel [] o0 r om hs0 (fun s hs => by cases hs) hcall
+      obtain ⟨hs1, hmono1, hall⟩ := ihr om o1 hsm hrest
+      refine ⟨hs1, fun x hx => hmono1 x (hmono x hx), ?_⟩
+      intro q hq hqs
+      rcases List.mem_cons.mp hq with rfl | hq
+      · exact hmono1 _ (hin hqs)
+      · exact hall q hq hqs
+  have h0 : EntityOrder.Sorted es [] := by unfold EntityOrder.Sorted; intro i n hi; simp at hi
+  obtain ⟨hs, _, hall⟩ := loop roots [] out h0 h
+  exact ⟨hs, hall⟩
+
+
+/-! ## the class body: attribute properties -/
+
+/-- One property per own attribute, in attribute order, under the escaped attribute name; no property name is a Python
+keyword. -/
+theorem C18_one_property_per_attribute (e : Entity) :
+    (propsOf e).map (·.name) = e.attrs.map (fun a => pyName a.name) ∧
+    ∀ p ∈ propsOf e, p.name ∉ Spec.pyKeywords := by
+  refine ⟨by simp [propsOf, propOf, List.map_map, Function.comp_def], ?_⟩
+  intro p hp
+  simp only [propsOf, List.mem_map] at hp
+  obtain ⟨a, _, rfl⟩ := hp
+  exact C18_names_legal a.name
+
+/-- Derived and inverse attributes are read-only (their setter raises), explicit attributes are settable: mandatory
+ones refuse `None`, OPTIONAL ones store it. -/
+theorem C18_property_access (a : Attr) :
+    ((propOf a).settable = true ↔ isParam a = true) ∧
+    ((propOf a).access = .mandatory ↔ a.kind = .explicit) ∧ ((propOf a).access = .optional ↔ a.kind = .optional) := by
+  cases hk : a.kind <;> simp [propOf, PyProp.settable, accessOf, isParam, hk]
+
+/-- The settable properties of a class are exactly its constructor's own parameters, in the same order: what the
+constructor takes for the entity's own attributes is what the class body lets the client set. -/
+theorem C18_settable_properties_are_own_ctor_params (e : Entity) :
+    ((propsOf e).filter (·.settable)).map (·.name) = ownParams e := by
+  unfold propsOf ownParams
+  induction e.attrs with
+  | nil => rfl
+  | cons a as ih =>
+    have h := (C18_property_access a).1
+    by_cases hp : isParam a = true
+    · have hs : (propOf a).settable = true := h.mpr hp
+      simp only [List.map_cons, List.filter_cons, hs, hp, if_true, ih]
+      simp [propOf]
+    · have hs : ¬ (propOf a).settable = true := fun hh => hp (h.mp hh)
+      simp only [List.map_cons, List.filter_cons, hs, hp, if_false, ih, Bool.false_eq_true]
+
+/-- A settable property checks the assigned value against the emitted definition of the attribute's declared type: the
+builtin class for a simple type, the escaped name for a defined type or an entity (the class or alias the module
+defines under that name), an inline aggregate expression otherwise. -/
+theorem C18_setter_checks_declared_type (a : Attr) (h : isParam a = true) :
+    (propOf a).checks = (match a.ty with
+      | .simple py => some py
+      | .boolean => some "BOOLEAN"
+      | .named n => some (pyName n)
+      | .aggregate => none) := by
+  simp only [propOf, h, if_true, checkedName]
+  cases a.ty <;> rfl
+
+/-! ## enumeration and select definitions -/
+
+/-- An enumeration is emitted under its escaped name with one item per declared item, every item escaped on its own (an
+item that is a Python keyword gets the underscore whatever the enumeration is called), none of them a keyword; distinct
+items stay distinct unless one is a keyword `k` and another is literally `k_`. -/
+theorem C18_enumeration_items_mirrored (n : String) (items : List String) :
+    typeOf ⟨n, .enum items⟩ = ⟨pyName n, .enum (items.map pyName)⟩ ∧
+    (∀ i ∈ items.map pyName, i ∉ Spec.pyKeywords) ∧
+    (∀ a ∈ items, ∀ b ∈ items, pyName a = pyName b → a = b ∨ (a ∈ pythonKeywords ∧ b = a ++ "_") ∨ (b ∈ pythonKeywords ∧ a = b ++ "_")) := by
+  refine ⟨rfl, ?_, fun a _ b _ h => C18_escaping_injective a b h⟩
+  intro i hi
+  obtain ⟨x, _, rfl⟩ := List.mem_map.mp hi
+  exact C18_names_legal x
+
+/-- A select is emitted under its escaped name with one member per declared member, every member escaped on its own —
+independently of the select's own name (seeded C18-b2) — so that each names the class the module defines for it. -/
+theorem C18_select_members_mirrored (n : String) (ms : List String) :
+    typeOf ⟨n, .select ms⟩ = ⟨pyName n, .select (ms.map pyName)⟩ ∧
+    ∀ (es : List Entity) (m : String), m ∈ ms → (∃ e ∈ es, e.name = m) →
+      ∃ c ∈ es.map (classOf es), c.name = pyName m := by
+  refine ⟨rfl, ?_⟩
+  intro es m _ ⟨e, he, hn⟩
+  exact ⟨classOf es e, List.mem_map.mpr ⟨e, he, rfl⟩, by simp [classOf, hn]⟩
 
 end StepModel.GenPy
